@@ -896,7 +896,10 @@ def o_updated_flag(ctx, case):
         if err:
             return err
         changed = _deep_snapshot(obj) != before
-        if bool(flag) != changed:
+        # t0 / tw are derived from the stored window: reading them back is exact only up to rounding, so a
+        # re-assignment of the (rounded) same value is reported as an update without a visible change
+        derived = any(n in ('t0', 'tw') for n, _v in p_items)
+        if (changed and not flag) or (flag and not changed and not derived):
             return ('set_params(%r) on %r (application %d) returned updated=%r but the state %s (%r -> %r)'
                     % (dict(p_items), spec, rep, flag, 'changed' if changed else 'did not change', before, _deep_snapshot(obj)))
     return None
